@@ -1,0 +1,60 @@
+/*!
+Test-only instrumentation for the verification harness.
+
+This module only exists when the crate is built with `--cfg emit_rs_emit_verif`. It lets a harness override
+three constants of the transport so that multi-request batches, request timeouts and retry back-off can be
+exercised end-to-end in milliseconds instead of needing megabytes of payload and minutes of wall-clock time.
+The overrides are process-wide. With the cfg off nothing in the crate changes.
+*/
+
+use std::{
+    sync::atomic::{AtomicU64, AtomicUsize, Ordering},
+    time::Duration,
+};
+
+static MAX_REQUEST_SIZE_BYTES: AtomicUsize = AtomicUsize::new(usize::MAX);
+static REQUEST_TIMEOUT_MICROS: AtomicU64 = AtomicU64::new(u64::MAX);
+
+/**
+Override the size in bytes at which a channel begins a new request for subsequently emitted events.
+
+Passing `usize::MAX` restores the default.
+*/
+pub fn set_max_request_size(bytes: usize) {
+    MAX_REQUEST_SIZE_BYTES.store(bytes, Ordering::SeqCst);
+}
+
+/**
+Override the timeout applied to each export request.
+
+Passing `Duration::MAX` restores the default.
+*/
+pub fn set_request_timeout(timeout: Duration) {
+    REQUEST_TIMEOUT_MICROS.store(
+        u64::try_from(timeout.as_micros()).unwrap_or(u64::MAX),
+        Ordering::SeqCst,
+    );
+}
+
+/**
+Divide every wait of the background receivers (idle polling and retry back-off) by `divisor`.
+
+Passing `1` restores the default. A `divisor` of `0` is treated as `1`.
+*/
+pub fn set_wait_divisor(divisor: u32) {
+    emit_batcher::verif::set_wait_divisor(divisor);
+}
+
+pub(crate) fn max_request_size(default: usize) -> usize {
+    match MAX_REQUEST_SIZE_BYTES.load(Ordering::SeqCst) {
+        usize::MAX => default,
+        bytes => bytes,
+    }
+}
+
+pub(crate) fn request_timeout(default: Duration) -> Duration {
+    match REQUEST_TIMEOUT_MICROS.load(Ordering::SeqCst) {
+        u64::MAX => default,
+        micros => Duration::from_micros(micros),
+    }
+}
